@@ -10,7 +10,8 @@ import HawkModel.Gen.Precedence
                      (`parse_primary_lparen` returns the inner node); HAWK_NDE_GRP exists for comma lists only.
   * `printP`         `print_expr`: which parentheses and blanks are written (items = token | one blank);
                      `print` = the tokens, `printStr` = the text.
-  * `parseLv`        the ladder: one generic `parse_binary` loop per `binmap_t` table plus the hand-written
+  * `parseLv`        the ladder: one generic `parse_binary` loop per `binmap_t` table (left- or right-associative as the
+                     generated `rassoc` flag says) plus the hand-written
                      levels, in the order the generated `ladder` gives; `parse` = `parse_expr` on all tokens.
   * `lex`            characters -> tokens (symbols by the generated `get_symbols` table with the C's walk);
                      used by the driver and by the gluing lemma.
@@ -249,11 +250,11 @@ mutual
 def parseLv (full : List Level) (n : Nat) (lv : List Level) (ts : List Tok) : Res :=
   match lv with
   | [] => .error .syntax
-  | .binary _ sk map :: rest =>
+  | .binary fn sk ra map :: rest =>
     -- parse_binary: left = next(); loop
     match parseLv full n rest ts with
     | .error e => .error e
-    | .ok (l, ts1) => binLoop full n sk map rest l ts1
+    | .ok (l, ts1) => binLoop full n fn sk ra map rest l ts1
   | .assLv :: rest =>
     -- parse_expr
     match parseLv full n rest ts with
@@ -437,8 +438,10 @@ def primNoPipe (full : List Level) (n : Nat) (k : TK) (t : Tok) (ts1 : List Tok)
 termination_by (n, full.length * 2 + 4)
 decreasing_by all_goals (simp_wf; first | omega | (apply Prod.Lex.left; omega) | (apply Prod.Lex.right; simp; omega) | (apply Prod.Lex.right; omega))
 
-/-- the loop of parse_binary: `while (tok in map) { right = next(); left = fold or node }` (left-associative) -/
-def binLoop (full : List Level) (n : Nat) (sk : Bool) (map : List (TK × BinOp)) (next : List Level) (left : Ast) (ts : List Tok) : Res :=
+/-- the loop of parse_binary: `while (tok in map) { right = <operand level>(); left = fold or node }`.
+    The right operand is parsed by the next level (left-associative), or - `ra` - by the level itself through
+    its *_withdc wrapper (right-associative: `a ** b ** c` is `a ** (b ** c)`) -/
+def binLoop (full : List Level) (n : Nat) (fn : String) (sk ra : Bool) (map : List (TK × BinOp)) (next : List Level) (left : Ast) (ts : List Tok) : Res :=
   match ts with
   | [] => .ok (left, ts)
   | t :: ts1 =>
@@ -448,12 +451,12 @@ def binLoop (full : List Level) (n : Nat) (sk : Bool) (map : List (TK × BinOp))
       match n with
       | 0 => .error .fuel
       | n' + 1 =>
-        match parseLv full n' next (skipNl sk ts1) with
+        match parseLv full n' (if ra then .binary fn sk ra map :: next else next) (skipNl sk ts1) with
         | .error e => .error e
         | .ok (r, ts2) =>
           match mkBin op left r with
           | .error e => .error e
-          | .ok l' => binLoop full n' sk map next l' ts2
+          | .ok l' => binLoop full n' fn sk ra map next l' ts2
 termination_by (n, next.length * 2)
 decreasing_by all_goals (simp_wf; first | omega | (apply Prod.Lex.left; omega) | (apply Prod.Lex.right; simp; omega) | (apply Prod.Lex.right; omega))
 
